@@ -3,6 +3,7 @@
 set -e
 cd "$(dirname "$0")/.."
 export CARGO_NET_OFFLINE=true
+python3 tools/mkmain.py
 python3 tools/extract.py || true
 (cd lean && lake build)
 (cd harness && cargo build --release --offline --bins)
